@@ -871,9 +871,376 @@ def correspond_tparams(ctx, corr):
                                            what="template parameters `%s`: %s" % (' '.join(toks), msg)))
 
 
+# ---------------------------------------------------------------------------
+# using statements: extracted using_stmt (Parse/Using.v) vs the real _parse_using on the same token lists
+
+class _UsingRec(impl.NullVisitor):
+    def __init__(self):
+        self.got = []
+
+    def on_using_namespace(self, state, names):
+        self.got.append(('dir', tuple(names)))
+
+    def on_using_declaration(self, state, u):
+        self.got.append(('decl', u))
+
+    def on_using_alias(self, state, u):
+        self.got.append(('alias', u))
+
+
+def real_using(strs, in_class, has_template):
+    from cxxheaderparser import parserstate as PS
+    toks = [impl.mk_tok(decl.tok_type(s), s) for s in strs]
+    p = impl.parser_over(toks)
+    rec = _UsingRec()
+    p.visitor = rec
+    if in_class:
+        cd = T.ClassDecl(T.PQName([T.NameSpecifier('S')], classkey='struct'))
+        p.state = PS.ClassBlockState(p.state, impl.L.Location("<list>", 1), cd, 'public', False, PS.ParsedTypeModifiers({}, {}, {}))
+    tmpl = T.TemplateDecl([T.TemplateTypeParam('typename', 'T')]) if has_template else None
+    try:
+        p._parse_using(impl.mk_tok('using', 'using'), None, tmpl)
+    except (impl.CxxParseError, EOFError):
+        return ('err',)
+    except (AssertionError, IndexError, KeyError, AttributeError, TypeError):
+        return ('other',)
+    if len(rec.got) != 1:
+        return ('other',)
+    kind, u = rec.got[0]
+    rest = len(p.lex.tokbuf)
+    if kind == 'dir':
+        root = bool(u) and u[0] == ''
+        return ('ok', rest, 'dir', root, tuple(u[1:] if root else u))
+    if kind == 'decl':
+        q = u.typename
+        segs = []
+        for sg in q.segments:
+            if isinstance(sg, T.FundamentalSpecifier):
+                segs.append(('fund', tuple(sg.name.split())))
+            elif isinstance(sg, T.NameSpecifier) and sg.specialization is None:
+                segs.append(('root',) if sg.name == '' else ('name', sg.name))
+            else:
+                return ('other',)
+        return ('ok', rest, 'decl', q.has_typename, tuple((q.classkey or '').split()), segs)
+    if u.template is not tmpl:
+        return ('other',)
+    try:
+        return ('ok', rest, 'alias', u.alias, decl.from_real(u.type))
+    except decl.Unrepresentable:
+        return ('other',)
+
+
+USING_WORDS = ['Foo', 'Bar', 'ns', 'T', '::', '::', 'namespace', 'typename', 'enum', '=', ';', ';', 'int', 'unsigned', 'const', '*', '&', '[', ']', '3',
+               '(', ')', 'struct', 'class', 'operator', 'template', '<', ',', 'x']
+
+
+def gen_using(rng):
+    """(tokens after `using`, in_class, has_template, expected or None)"""
+    r = rng.random()
+    in_class = rng.random() < 0.3
+    has_template = rng.random() < 0.15
+    names = [rng.choice(['Foo', 'Bar', 'ns', 'T', 'a']) for _ in range(rng.choice([1, 1, 2, 3]))]
+    qual = []
+    for i, n in enumerate(names):
+        if i:
+            qual.append('::')
+        qual.append(n)
+    root = rng.random() < 0.3
+    if r < 0.25:
+        toks = ['namespace'] + (['::'] if root else []) + qual + [';']
+        exp = None if (in_class or has_template) else ('dir', root, tuple(names))
+    elif r < 0.6:
+        tn = rng.random() < 0.3
+        toks = (['typename'] if tn else []) + (['::'] if root else []) + qual + [';']
+        if rng.random() < 0.15:
+            toks = ['enum'] + (['::'] if root else []) + qual + [';']
+            exp = None if has_template else ('decl', False, ('enum',), ([('root',)] if root else []) + [('name', n) for n in names])
+        else:
+            exp = None if has_template else ('decl', False, (), ([('root',)] if root else []) + [('name', n) for n in names])
+    else:
+        while True:
+            t = decl.rand_type(rng, rng.choice([0, 1, 2, 3]))
+            if decl.legal(t) and decl.kind(t) != 'F' and not decl.is_void(t):
+                break
+        name = rng.choice(['A', 'Alias', 'T2'])
+        toks = [name, '='] + decl.print_decl(t, None) + [';']
+        exp = ('alias', name, t)
+    toks = toks + rng.choice([[], ['int'], ['}'], ['x', ';']])
+    return toks, in_class, has_template, exp
+
+
+def model_using(cases):
+    lines, nms = [], []
+    for toks, ic, ht in cases:
+        names = decl.Names()
+        lines.append([98, int(ic), int(ht)] + decl.enc_tokens(toks, names))
+        nms.append(names)
+    res = []
+    for o, names in zip(run_driver(lines), nms):
+        if o[0] != 0:
+            res.append(('err', o[1]))
+            continue
+        rest, k = o[1], o[2]
+        if k == 1:
+            n = o[4]
+            res.append(('ok', rest, 'dir', bool(o[3]), tuple(names.rev.get(x, '?') for x in o[5:5 + n])))
+        elif k == 2:
+            kl = o[4]
+            key = tuple(impl.TT[x] for x in o[5:5 + kl])
+            i = 5 + kl
+            cnt = o[i]
+            i += 1
+            segs = []
+            for _ in range(cnt):
+                if o[i] == 0:
+                    segs.append(('root',)); i += 1
+                elif o[i] == 1:
+                    segs.append(('name', names.rev.get(o[i + 1], '?'))); i += 2
+                else:
+                    n = o[i + 1]
+                    segs.append(('fund', tuple(impl.TT[x] for x in o[i + 2:i + 2 + n]))); i += 2 + n
+            res.append(('ok', rest, 'decl', bool(o[3]), key, segs))
+        else:
+            res.append(('ok', rest, 'alias', names.rev.get(o[3], '?'), decl.dec_type(o, 4, names)[0]))
+    return res
+
+
+def using_msg(m, r):
+    if r[0] == 'other' or m == ('err', 4):
+        return None
+    if m[0] == 'err' and m[1] == 9:
+        return "model ran out of budget"
+    if (m[0] == 'ok') != (r[0] == 'ok'):
+        return "model %s, implementation %s" % (m[:3], r[:3])
+    if m[0] == 'ok' and m != r:
+        return "model %s, implementation %s" % (m, r)
+    return None
+
+
+def correspond_using(ctx, corr):
+    rng = ctx.rng
+    cases = []
+    for _ in range(ctx.scale(900, 20000)):
+        toks, ic, ht, exp = gen_using(rng)
+        cases.append((toks, ic, ht, exp, 'using-valid'))
+        if rng.random() < 0.5:
+            mt = c02.mutate(rng, toks) or [';']
+            if rng.random() < 0.3:
+                mt = [rng.choice(USING_WORDS) for _ in range(rng.choice([1, 2, 3, 5]))]
+            mt = [t for t in mt if t not in ('...', '&&', 'volatile')] or [';']
+            cases.append((mt, ic, ht, None, 'using-mutated'))
+    ms = model_using([(c[0], c[1], c[2]) for c in cases])
+    for (toks, ic, ht, exp, kind), m in zip(cases, ms):
+        corr.cases += 1
+        r = real_using(toks, ic, ht)
+        k = kind + ":" + (m[0] if m[0] == 'ok' else 'err%d' % m[1]) + "/" + r[0]
+        corr.dist[k] = corr.dist.get(k, 0) + 1
+        msg = using_msg(m, r)
+        if msg is None and exp is not None and (m[0] != 'ok' or m[2:] != exp):
+            msg = "model does not decode the printed using statement: %s" % (m,)
+        if msg:
+            corr.disagreements.append(dict(case=dict(kind='corr-using', tokens=toks, in_class=ic, has_template=ht), model=str(m)[:300], impl=str(r)[:300],
+                                           what="using %s (%s%s): %s" % (' '.join(toks), 'class' if ic else 'namespace', ', template' if ht else '', msg)))
+
+
+# ---------------------------------------------------------------------------
+# enum declarations behind the name: extracted enum_decl (Parse/EnumDecl.v) vs the real _parse_enum_decl
+
+class _EnumRec(impl.NullVisitor):
+    def __init__(self):
+        self.got = []
+
+    def on_forward_decl(self, state, f):
+        self.got.append(('fwd', f))
+
+    def on_enum(self, state, e):
+        self.got.append(('def', e))
+
+    def on_variable(self, state, v):
+        self.got.append(('var', v))
+
+    def on_typedef(self, state, v):
+        self.got.append(('var', v))
+
+
+def _pq_view(q):
+    segs = []
+    for sg in q.segments:
+        if isinstance(sg, T.FundamentalSpecifier):
+            segs.append(('fund', tuple(sg.name.split())))
+        elif isinstance(sg, T.NameSpecifier) and sg.specialization is None:
+            segs.append(('root',) if sg.name == '' else ('name', sg.name))
+        else:
+            return None
+    return (q.has_typename, tuple((q.classkey or '').split()), segs)
+
+
+def real_enum_decl(strs, is_typedef):
+    from cxxheaderparser import parserstate as PS
+    toks = [impl.mk_tok(decl.tok_type(s), s) for s in strs]
+    if not toks:
+        return ('err',)
+    p = impl.parser_over(toks[1:])
+    rec = _EnumRec()
+    p.visitor = rec
+    tn = T.PQName([T.NameSpecifier('E')], classkey='enum')
+    try:
+        p._parse_enum_decl(tn, toks[0], None, is_typedef, impl.L.Location("<list>", 1), PS.ParsedTypeModifiers({}, {}, {}))
+    except (impl.CxxParseError, EOFError):
+        return ('err',)
+    except (AssertionError, IndexError, KeyError, AttributeError, TypeError):
+        return ('other',)
+    if len(rec.got) != 1:
+        return ('other',)
+    kind, u = rec.got[0]
+    rest = len(p.lex.tokbuf)
+    if kind == 'fwd':
+        b = _pq_view(u.enum_base)
+        return ('other',) if b is None else ('ok', rest, 'fwd', b)
+    if kind != 'def':
+        return ('other',)
+    b = None
+    if u.base is not None:
+        b = _pq_view(u.base)
+        if b is None:
+            return ('other',)
+    return ('ok', rest, 'def', b, [(v.name, None if v.value is None else tuple(t.value for t in v.value.tokens)) for v in u.values])
+
+
+def _dec_pq(o, i, names):
+    tn = bool(o[i])
+    kl = o[i + 1]
+    key = tuple(impl.TT[x] for x in o[i + 2:i + 2 + kl])
+    i += 2 + kl
+    cnt = o[i]
+    i += 1
+    segs = []
+    for _ in range(cnt):
+        if o[i] == 0:
+            segs.append(('root',)); i += 1
+        elif o[i] == 1:
+            segs.append(('name', names.rev.get(o[i + 1], '?'))); i += 2
+        else:
+            n = o[i + 1]
+            segs.append(('fund', tuple(impl.TT[x] for x in o[i + 2:i + 2 + n]))); i += 2 + n
+    return (tn, key, segs), i
+
+
+def _dec_enumerators(o, i, names):
+    k = o[i]
+    i += 1
+    items = []
+    for _ in range(k):
+        name = names.rev.get(o[i], '?')
+        if o[i + 1] == 0:
+            items.append((name, None))
+            i += 2
+        else:
+            ln = o[i + 2]
+            vals = tuple(names.rev[o[i + 3 + 2 * j + 1]] if o[i + 3 + 2 * j + 1] else impl.TT[o[i + 3 + 2 * j]] for j in range(ln))
+            items.append((name, vals))
+            i += 3 + 2 * ln
+    return items, i
+
+
+def model_enum_decls(cases):
+    lines, nms = [], []
+    for toks, td in cases:
+        names = decl.Names()
+        lines.append([99, int(td)] + decl.enc_tokens(toks, names))
+        nms.append(names)
+    res = []
+    for o, names in zip(run_driver(lines), nms):
+        if o[0] != 0:
+            res.append(('err', o[1]))
+        elif o[2] == 1:
+            res.append(('ok', o[1], 'fwd', _dec_pq(o, 3, names)[0]))
+        else:
+            b, i = (None, 4)
+            if o[3]:
+                b, i = _dec_pq(o, 4, names)
+            res.append(('ok', o[1], 'def', b, _dec_enumerators(o, i, names)[0]))
+    return res
+
+
+ENUM_BASES = [['int'], ['unsigned', 'char'], ['long', 'unsigned', 'int'], ['ns', '::', 'Foo'], ['::', 'Bar'], ['T'], ['typename', 'T', '::', 'type'], ['short']]
+
+
+def gen_enum_decl(rng):
+    base = rng.choice([None, None] + ENUM_BASES)
+    toks = ([':'] + base) if base else []
+    exp_base = None
+    if base:
+        tn = base[0] == 'typename'
+        b = base[1:] if tn else base
+        if all(w in ('int', 'unsigned', 'char', 'long', 'short') for w in b):
+            segs = [('fund', tuple(b))]
+        else:
+            segs = [('root',)] if b[0] == '::' else []
+            segs += [('name', w) for w in b if w != '::']
+        exp_base = (tn, (), segs)
+    if base and rng.random() < 0.3:
+        return toks + [';'] + rng.choice([[], ['int']]), ('fwd', exp_base)
+    items = []
+    toks.append('{')
+    n = rng.choice([0, 1, 2, 3])
+    for i in range(n):
+        v = rng.choice([None, None] + ENUM_VALUES)
+        items.append(('K%d' % i, None if v is None else tuple(v)))
+        if i:
+            toks.append(',')
+        toks.append('K%d' % i)
+        if rng.random() < 0.2:
+            toks += ['[['] + rng.choice(ENUM_ATTRS) + [']]']
+        if v is not None:
+            toks += ['='] + list(v)
+    if n and rng.random() < 0.3:
+        toks.append(',')
+    toks += ['}', ';'] + rng.choice([[], ['int'], ['}']])
+    return toks, ('def', exp_base, items)
+
+
+def enum_decl_msg(m, r):
+    if r[0] == 'other' or m == ('err', 4):
+        return None
+    if m[0] == 'err' and m[1] == 9:
+        return "model ran out of budget"
+    if (m[0] == 'ok') != (r[0] == 'ok'):
+        return "model %s, implementation %s" % (m[:3], r[:3])
+    if m[0] == 'ok' and m != r:
+        return "model %s, implementation %s" % (m, r)
+    return None
+
+
+def correspond_enum_decls(ctx, corr):
+    rng = ctx.rng
+    cases = []
+    for _ in range(ctx.scale(700, 15000)):
+        toks, exp = gen_enum_decl(rng)
+        cases.append((toks, False, exp, 'enumdecl-valid'))
+        if rng.random() < 0.5:
+            mt = c02.mutate(rng, toks) or [';']
+            mt = [t for t in mt if t not in ('...', '&&', 'volatile')] or [';']
+            cases.append((mt, rng.random() < 0.2, None, 'enumdecl-mutated'))
+    ms = model_enum_decls([(c[0], c[1]) for c in cases])
+    for (toks, td, exp, kind), m in zip(cases, ms):
+        corr.cases += 1
+        r = real_enum_decl(toks, td)
+        k = kind + ":" + (m[0] if m[0] == 'ok' else 'err%d' % m[1]) + "/" + r[0]
+        corr.dist[k] = corr.dist.get(k, 0) + 1
+        msg = enum_decl_msg(m, r)
+        if msg is None and exp is not None and (m[0] != 'ok' or tuple(m[2:]) != tuple(exp)):
+            msg = "model does not decode the printed enum declaration: %s" % (m,)
+        if msg:
+            corr.disagreements.append(dict(case=dict(kind='corr-enumdecl', tokens=toks, is_typedef=td), model=str(m)[:300], impl=str(r)[:300],
+                                           what="enum E %s: %s" % (' '.join(toks), msg)))
+
+
 def correspond(ctx):
     corr = Corr()
     rng = ctx.rng
+    correspond_using(ctx, corr)
+    correspond_enum_decls(ctx, corr)
     correspond_tparams(ctx, corr)
     correspond_typedefs(ctx, corr)
     correspond_stmts_i(ctx, corr)
@@ -1060,6 +1427,14 @@ def replay(ctx, case):
         if r[0] != 'other' and m != ('err', 4) and ((m[0] == 'ok') != (r[0] == 'ok') or (m[0] == 'ok' and m != r)):
             return ["specifier loop: model %s, implementation %s" % (m, r)]
         return []
+    if k == 'corr-using':
+        m = model_using([(case["tokens"], case["in_class"], case["has_template"])])[0]
+        msg = using_msg(m, real_using(case["tokens"], case["in_class"], case["has_template"]))
+        return ["using statement: " + msg] if msg else []
+    if k == 'corr-enumdecl':
+        m = model_enum_decls([(case["tokens"], case["is_typedef"])])[0]
+        msg = enum_decl_msg(m, real_enum_decl(case["tokens"], case["is_typedef"]))
+        return ["enum declaration: " + msg] if msg else []
     if k == 'corr-enum':
         m = model_enums([case["tokens"]])[0]
         r = real_enum('enum E { ' + ' '.join(case["tokens"]))
